@@ -44,7 +44,15 @@ Del(f, k) == [x \in (DOMAIN f) \ {k} |-> f[x]]
 SegFile(docs) == [kind |-> "seg", docs |-> docs, segs |-> <<>>]
 ManFile(segs) == [kind |-> "man", docs |-> {}, segs |-> segs]
 
-Resolve(root, p) == IF Mode = "rebase" THEN <<root, p[2]>> ELSE p
+(* Two further modes model the seeded change "skip the rebase when the stored path already     *)
+(* starts with the root" implemented as a *textual* prefix test: invisible while the two         *)
+(* directory names are unrelated, equal to "absolute" for the copy when the copy's name is a     *)
+(* textual prefix of the original's (idx.bak restored to idx).                                   *)
+Resolve(root, p) ==
+  CASE Mode = "rebase" -> <<root, p[2]>>
+    [] Mode = "fastpath_unrelated_names" -> <<root, p[2]>>
+    [] Mode = "fastpath_copy_name_prefixes_original" -> IF root = "B" /\ p[1] = "A" THEN p ELSE <<root, p[2]>>
+    [] OTHER -> p
 
 SeqToSet(s) == {s[i] : i \in DOMAIN s}
 
